@@ -49,6 +49,11 @@ def specs(ctx):
     # writes to one destination: one thread at a time, in queue order
     s += sysrun.specs_stream_order(ctx, 400 if ctx.thorough() else 120)
     s += sysrun.specs_shared_window(ctx, 500 if ctx.thorough() else 150)
+    # the pool may run a task before submit() has returned to the submitter (monitors only: the log order
+    # of 'enqueued' and 'task_start' is then not the model's)
+    rng2 = ctx.rng('c10-submit-yield')
+    for sp in sysrun.specs_mixed(ctx, 120 if ctx.thorough() else 30, limits=(1, 2), with_victims=False, tag='c10sy'):
+        s.append(dict(sp, submit_yield=True, chooser={'kind': 'pct', 'seed': rng2.randrange(1 << 30), 'depth': 5}))
     return s
 
 
